@@ -62,6 +62,30 @@ func counting[K any](f func(a, b K) int, n *int64) func(a, b K) int {
 		if *n > stepBudget {
 			panic("comparator step budget exceeded (non-termination)")
 		}
+		outsideDomain(a, b)
+		return f(a, b)
+	}
+}
+
+// outsideDomain: a comparator is defined on the keys the caller uses. With
+// pointer keys (PKDom) the harness never supplies nil, and a real comparator
+// for such keys dereferences its arguments: a library that hands the
+// comparator a value the caller never gave it - the zero value of K as a
+// probe or placeholder - makes the caller's comparator crash. The harness's
+// own comparators tolerate nil (the monitors may look at whatever comes
+// back); the ones handed to the library go through here.
+func outsideDomain[K any](a, b K) {
+	if pa, ok := any(a).(*PK); ok {
+		if pb, _ := any(b).(*PK); pa == nil || pb == nil {
+			panic("the library called the comparator with a nil key, which the caller never supplied (a comparator need only be defined on the keys in use)")
+		}
+	}
+}
+
+// strictly wraps a comparator handed to the library without a call counter.
+func strictly[K any](f func(a, b K) int) func(a, b K) int {
+	return func(a, b K) int {
+		outsideDomain(a, b)
 		return f(a, b)
 	}
 }
@@ -287,7 +311,7 @@ func newTreeBidiOn[K comparable, V comparable](kc NamedCmp[K], vc NamedCmp[V], m
 		t = mk().(*treebidimap.Map[K, V])
 		name = "builtin"
 	} else {
-		t = treebidimap.NewWith[K, V](kc.F, vc.F)
+		t = treebidimap.NewWith[K, V](strictly(kc.F), vc.F)
 	}
 	return &KV[K, V]{Name: "TreeBidiMap", M: t, JSON: t, Raw: t, KCmp: kc.F, VCmp: vc.F, CmpName: name, Sorted: true, ValuesSorted: true,
 		GetKey: t.GetKey,
